@@ -64,6 +64,16 @@ pub fn check(d: &AdjacencyMap, m: &Model, o: &mut CaseOut) -> usize {
         let via = x.circuits();
         o.check(via == got, "circuits-differ-after-clone_from", || crate::ctx::clip(&format!("first {got:?} via clone_from {via:?}")));
         o.check(cloned == got, "circuits-differ-on-a-clone", || crate::ctx::clip(&format!("first {got:?} clone {cloned:?}")));
+        if got.len() <= 3000 {
+            // a third and a fourth call, and a clone taken from the used object
+            let mut used = j.clone();
+            for nth in 3..=4 {
+                let later = j.circuits();
+                o.check(later == got, "circuits-differ-on-a-later-call", || crate::ctx::clip(&format!("first {got:?} call {nth}: {later:?}")));
+            }
+            let via_used = used.circuits();
+            o.check(via_used == got, "circuits-differ-on-a-clone-of-a-used-object", || crate::ctx::clip(&format!("first {got:?} clone of used {via_used:?}")));
+        }
     }
     let want = m.circuits();
     let set: BTreeSet<Vec<usize>> = got.iter().cloned().collect();
